@@ -70,4 +70,15 @@ WellShaped(text, off) ==
        /\ \A i \in (dpos + 1)..(dpos + 9) : IsDigit(text[i])           \* nine nanosecond digits
        /\ (text[Len(text)] = 90) = (off = 0)                           \* 'Z' exactly when the offset is zero
        /\ (off # 0 => text[dpos + 10] = (IF off < 0 THEN 45 ELSE 43))
+       \* the offset part: sign, at least two hour digits, ':MM', and ':SS' only if present - all two-digit, all digits
+       /\ (off # 0 => LET body == SubSeq(text, dpos + 11, Len(text))
+                          colons == Positions(body, 58)
+                      IN /\ Cardinality(colons) \in {1, 2}
+                         /\ \A i \in 1..Len(body) : i \in colons \/ IsDigit(body[i])
+                         /\ LET c1 == CHOOSE i \in colons : \A j \in colons : i <= j IN
+                              /\ c1 >= 3
+                              /\ (Cardinality(colons) = 1 => Len(body) = c1 + 2)
+                              /\ (Cardinality(colons) = 2 => Len(body) = c1 + 5 /\ body[c1 + 3] = 58))
+       /\ \A i \in 1..(tpos - 1) : IsDigit(text[i]) \/ text[i] = 45
+       /\ tpos >= 8 /\ text[tpos - 3] = 45 /\ text[tpos - 6] = 45
 =============================================================================
